@@ -43,7 +43,12 @@ Absolute(sc, B, u, r) ==
          Mis("C13", "token-range", u, r, Len(r.w), r.tk)) \o
       (IF sc.collect.exec
        THEN If(r.hasx # (NumActions(sc.grammar) > 0), Mis("C04", "has-execute", u, r, NumActions(sc.grammar) > 0, r.hasx)) \o
-            If(Field(r, "ex") # ExecWithText(E.toks, r.w), Mis("C04", "exec", u, r, ExecWithText(E.toks, r.w), Field(r, "ex")))
+            LET X == ExecWithText(E.toks, r.w)
+                \* what the probe was handed: all of text, begin, end ("full") or text only / nothing
+                want == [k \in 1..Len(X) |-> CASE sc.actstyle = "full" -> X[k]
+                                               [] sc.actstyle = "text" -> <<X[k][1], X[k][2], 0, 0>>
+                                               [] OTHER -> <<X[k][1], <<>>, 0, 0>>]
+            IN If(Field(r, "ex") # want, Mis("C04", "exec", u, r, want, Field(r, "ex")))
        ELSE <<>>) \o
       (IF sc.collect.ast
        THEN If(Field(r, "as") # DerivTree(E.toks), Mis("C05", "ast", u, r, DerivTree(E.toks), Field(r, "as"))) \o
@@ -64,7 +69,7 @@ Absolute(sc, B, u, r) ==
     ELSE <<>>))
 
 (* ---------- relative checks: another option set / configuration / history against the default ---------- *)
-CmpFields == <<"ok", "pn", "tk", "et", "ex", "as", "pr", "ms">>
+CmpFields == <<"ok", "pn", "tk", "et", "ex", "as", "pr", "ms", "lg">>
 RECURSIVE CmpFrom(_, _, _, _, _, _)
 CmpFrom(prop, u, r, d, k, fields) ==
   IF k > Len(fields) THEN <<>>
@@ -84,16 +89,33 @@ DefaultPlanIdx(sc, pl) ==
 
 IsNoAst(opt) == opt \in {"n", "ni", "ns", "nis"}
 
-\* -noast: same verdict as the default parser; inline action log judged against NoAstLog elsewhere
+\* -noast: same verdict as the default parser; the inline action log is what PegSem!NoAstLog
+\* derives (-noast, -noast -inline); with -switch, alternatives that cannot start are skipped
+\* legitimately, so only the derivation's own actions are required, in order
+NoAstJudge(sc, u, r) ==
+  IF r.pn # "" \/ r.h > 0 THEN <<>> ELSE
+  LET B == BodyMap(Core(sc.grammar))
+      pl == sc.plan[r.c]
+      entry == IF pl.entry = "" THEN sc.grammar.rules[1].name ELSE pl.entry
+      E == Parse(B, r.w, entry)
+      want == NoAstLog(E.adds, r.w)
+      ks(l) == [k \in 1..Len(l) |-> l[k][1]]
+  IN IF u.opt \in {"n", "ni"}
+     THEN If(r.lg # want, Mis("C07", "inline-log", u, r, want, r.lg))
+     ELSE If(E.ok /\ ~IsSubseq(ks(ExecLog(E.toks)), 1, ks(r.lg), 1), Mis("C07", "inline-log-derivation", u, r, ks(ExecLog(E.toks)), r.lg))
+
 Relative(sc, units, du, u, k) ==
   LET r == u.runs[k] pl == sc.plan[r.c] IN
-  IF u.opt # "" THEN
+  IF u.opt # "" /\ r.h > 0 THEN   \* reuse of an optimised / -noast parser: against its own fresh run
+     LET S == {j \in 1..Len(u.runs) : u.runs[j].i = r.i /\ u.runs[j].c = r.c /\ u.runs[j].h = 0} IN
+     IF S = {} THEN <<>> ELSE CmpFrom("C12", u, r, u.runs[CHOOSE j \in S : TRUE], 1, <<"ok", "pn", "tk", "et", "lg">>)
+  ELSE IF u.opt # "" THEN
      (IF du = <<>> THEN <<>> ELSE
       LET j == FindRun(du[1], r, k) IN
       IF j = 0 THEN <<>>
       ELSE LET d == du[1].runs[j] IN
            IF IsNoAst(u.opt)
-           THEN CmpFrom("C07", u, r, d, 1, <<"ok", "pn">>)
+           THEN CmpFrom("C07", u, r, d, 1, <<"ok", "pn">>) \o NoAstJudge(sc, u, r)
            ELSE CmpFrom("C02", u, r, d, 1, IF r.ok /\ d.ok THEN <<"ok", "pn", "tk">> ELSE <<"ok", "pn">>))
   ELSE IF r.h > 0 THEN   \* a step of a history on a long-lived instance against the fresh instance
      LET S == {j \in 1..Len(u.runs) : u.runs[j].i = r.i /\ u.runs[j].c = r.c /\ u.runs[j].h = 0} IN
@@ -129,7 +151,9 @@ JudgeUnits(sc, B, units, du, k) ==
   IF k > Len(units) THEN <<>>
   ELSE LET u == units[k] IN
        JudgeGen(sc, u) \o JudgeRuns(sc, B, units, du, u, 1) \o
-       <<[kind |-> "stat", opt |-> u.opt, runs |-> Len(u.runs), compiled |-> u.gen.compiles,
+       <<[kind |-> "stat", opt |-> u.opt, runs |-> Len(u.runs), compiled |-> u.gen.compiles, nswitch |-> u.gen.nswitch, nnil |-> u.gen.nnil,
+          memooff |-> Cardinality({j \in 1..Len(u.runs) : ~sc.plan[u.runs[j].c].memo}),
+          hist |-> Cardinality({j \in 1..Len(u.runs) : u.runs[j].h > 0}),
           accepted |-> Cardinality({j \in 1..Len(u.runs) : u.runs[j].ok}),
           nontrivial |-> Cardinality({j \in 1..Len(u.runs) : (u.runs[j].ok /\ Has(u.runs[j], "tk") /\ Len(u.runs[j].tk) >= 2)
                                                               \/ (~u.runs[j].ok /\ u.runs[j].et[3] > 0)})]>>
